@@ -19,8 +19,15 @@ def gen_descs(rep, wd, module, cfg, label, per_op=0, exact=False, timeout=1800, 
     if not r.ok:
         raise ToolError("generator %s did not complete:\n%s" % (cfg, r.out[-2000:]))
     rep.add_tlc(r, "gen:" + label)
-    n = int(r.printed("GENERATED")[0])
-    rows = common.read_ndjson(out)
+    if r.printed("GENERATED"):
+        n = int(r.printed("GENERATED")[0])
+        rows = common.read_ndjson(out)
+    else:   # state-per-descriptor generators print one DESC line per distinct state (invariant Emit)
+        rows = [json.loads(json.loads(x)) for x in r.printed("DESC")]
+        rows.sort(key=lambda x: json.dumps(x, sort_keys=True))
+        n = len(rows)
+        if n != r.distinct - 1:
+            raise ToolError("generator %s: %d descriptors printed but %d states" % (cfg, n, r.distinct))
     for i, row in enumerate(rows):
         row.setdefault("id", i + 1)
         if exact:
@@ -53,8 +60,15 @@ def describe(e):
     maj = max(outs, key=lambda o: len(o["who"]))
     odd = sorted({BE[w["b"]] for o in outs if o is not maj for w in o["who"]})
     panics = sorted({re.sub(r"\d+", "#", o["panic"])[:90] for o in outs if o["panic"]})
-    key = "%s n=%s bin=%s bkey=%s bout=%s rin=%s rout=%s dsize=%s" % (e["op"], e.get("n"), e.get("bin"), e.get("bkey"), e.get("bout"), e.get("rin"), e.get("rout"), e.get("dsize"))
-    key += " xin=%d xout=%d" % (int(e.get("bin") != e.get("bkey")), int(e.get("bout") != e.get("bkey")))
+    if e.get("ev") == "mul":
+        key = "%s n=%s rank=%s ab=%s rb=%s sa=%s sb=%s sr=%s" % (e["op"], e.get("n"), e.get("rank"), e.get("ab"), e.get("rb"), e.get("sa"), e.get("sb"), e.get("sr"))
+        if e["op"] == "relin":
+            key += " bkey=%s dsize=%s" % (e.get("bkey"), e.get("dsize"))
+        else:
+            key += " offmod=%s" % (e.get("off", 0) % e.get("ab", 1))
+    else:
+        key = "%s n=%s bin=%s bkey=%s bout=%s rin=%s rout=%s dsize=%s" % (e["op"], e.get("n"), e.get("bin"), e.get("bkey"), e.get("bout"), e.get("rin"), e.get("rout"), e.get("dsize"))
+        key += " xin=%d xout=%d" % (int(e.get("bin") != e.get("bkey")), int(e.get("bout") != e.get("bkey")))
     if odd:
         key += " odd=" + ",".join(odd)
     if panics:
